@@ -5,7 +5,13 @@ correspondence : raw kernels of graph.h (serial / parallel MIS with replayed wei
                  and distance-k parallel MIS with tied integer weights) vs Model/KGraph.lean, Model/ExtGraph.lean
                  and Model/KNum.lean, exact integer / rational equality.
 search         : public functions of pyamg/graph.py judged by the specification itself (independent
-                 Python checkers, SciPy csgraph as a second opinion, and the Lean-proved `checkMIS`).
+                 Python checkers, SciPy csgraph as a second opinion, and the Lean-proved `checkMIS`): the whole option
+                 grid per graph -- maximal_independent_set algo {serial, parallel} x k {None, 1, 2, 3, 4} judged at the
+                 requested distance, vertex_coloring MIS / JP / LDF, bellman_ford methods x tiebreaking with centres as list /
+                 int64 / int32 array, breadth_first_search from every seed (n <= 6), lloyd_cluster (centre list / count,
+                 maxiter 1, 2, 3, 5, default, complex weights; nearest-centre labels w.r.t. the centres returned with one sweep
+                 less), pseudo_peripheral_node, connected_components, symmetric_rcm; inputs as CSR, CSC, dense, COO and CSR
+                 with unsorted rows; self loops on all / some vertices, exhaustively every self-loop subset on <= 3 (4) vertices.
 extension E20  : `bellman_ford_balanced` (kernel on the wrapper's and on the Lloyd loop's initial arrays, second call on
                  its own final state, tiebreaking on/off, dyadic weights with ties, some zero weights) and the public
                  `bellman_ford(method='balanced')` (repeated / negative centres, CSC input) vs Model/ExtC18Bal.lean: exact
@@ -28,7 +34,8 @@ META = {
     'rule': 'graphs: every labelled graph on <= 4 (quick) / <= 6 (thorough) vertices, plus seeded structured random graphs '
             '(paths, stars, cycles, cliques, isolated pairs, grids, two components, Erdos-Renyi; some with self loops, some '
             'nonsymmetric for the kernel correspondence) up to n = 40; weights dyadic with ties; a case is non-trivial when '
-            'the graph has an edge; distinct = distinct (routine, graph, parameters)',
+            'the graph has an edge; distinct = distinct (routine, graph, input format, parameters); every graph on <= 3 (quick) / '
+            '<= 4 (thorough) vertices with every non-empty self-loop subset; public functions: full option grid per graph',
     'search_only': ['balanced Bellman-Ford: termination (the kernel gives up after n*n sweeps with a C++ exception) is not a theorem; '
                     'the check never met it on the unchanged tree; RCM: only "permutation" is a theorem, bandwidth quality is not judged',
                     'Jones-Plassmann / LDF colourings and distance-k MIS through the public wrappers (random real weights): '
@@ -925,7 +932,7 @@ def run(ctx):
 
 
 def search(ctx):
-    part_b(ctx, list(graph_stream(ctx, 5, 1500, 30)))
+    part_b(ctx, list(loop_stream(3)) + list(graph_stream(ctx, 5, 1500, 30)))
 
 
 def replay(ctx, data):
